@@ -82,5 +82,20 @@ func main() {
 		}()
 		f(c)
 	}()
+	// thorough tier: the same rules on the other build configurations (C14 compares them itself)
+	if *tier == "thorough" && *prop != "C14" {
+		for _, cfg := range []string{"amd64-purego", "arm64"} {
+			c.override, c.cur = cfg, cfg
+			func() {
+				defer func() {
+					if e := recover(); e != nil {
+						c.undecided(c.Prop+".internal", "analyser panic ("+cfg+")", fmt.Sprintf("%v\n%s", e, debug.Stack()), "")
+					}
+				}()
+				f(c)
+			}()
+		}
+		c.override, c.cur = "", "amd64"
+	}
 	os.Exit(c.finish(seed, start, *evid))
 }
